@@ -30,7 +30,7 @@ RULE = (
 EXHAUSTIVE_SUBSPACES = ["every operator kind x every axis (both spellings) for ranks 1-3 at depth 1"]
 ASSUMPTIONS = ["numpy / scipy definitions in vf/ref.py are the documented functions", "Log / stddev inputs are generated strictly positive"]
 FLOOR = {("node:" + k): 1 for k in pgen.ALL_NODE_KINDS}
-FLOOR.update({"folded:F>1": 1, "axis:negative": 1, "axis:nonlast": 1, "complex-leaves": 1, "param_values_compared": 500, "opt:rewritten": 1})
+FLOOR.update({"folded:F>1": 1, "axis:negative": 1, "axis:nonlast": 1, "complex-leaves": 1, "param_values_compared": 500, "opt:rewritten": 1, "opt:einsum": 1, "opt:logsoftmax": 1})
 
 
 def plan(tier, seed):
@@ -138,6 +138,10 @@ def folded_check(res: Result, rng, make, ncopies: int, tag: str, tol):
         if opt and feats & {"ccp:TorchLogSoftmaxParameter", "ccp:TorchEinsumParameter", "ccp:TorchMatMulParameter"}:
             if any(isinstance(n, (P.LogParameter, P.ReduceSumParameter)) for p in params for n in p.nodes):
                 res.features.add("opt:rewritten")
+                if "ccp:TorchEinsumParameter" in feats:
+                    res.features.add("opt:einsum")
+                if "ccp:TorchLogSoftmaxParameter" in feats and any(isinstance(n, P.LogParameter) for p in params for n in p.nodes):
+                    res.features.add("opt:logsoftmax")
         o = call(C.evaluate, cc_, X)
         if not o.ok:
             exc_violation(res, o, f"{ftag}: evaluate")
